@@ -9,6 +9,7 @@ import Driver.Vesting
 import Driver.Init
 import Driver.MinerPenalty
 import Driver.Dispatch
+import Driver.EvmMachine
 
 /-- generic stdin/stdout loop over a pure handler -/
 partial def loop {σ : Type} (h : IO.FS.Stream) (out : IO.FS.Stream) (step : σ → String → σ × String)
@@ -36,4 +37,5 @@ def main (args : List String) : IO UInt32 := do
   | ["init"] => loop stdin stdout Driver.Init.handle BA.Init.genesis; return 0
   | ["minerpenalty"] => loop stdin stdout Driver.MinerPenalty.handle (); return 0
   | ["dispatch"] => loop stdin stdout Driver.Dispatch.handle (); return 0
+  | ["evmmachine"] => loop stdin stdout Driver.EvmMachine.handle (); return 0
   | _ => IO.eprintln "usage: driver <model>"; return 2
